@@ -498,18 +498,21 @@ def _gen_case(seed):
     import stimcore
     rng = random.Random(seed)
     fs = FS
-    cat = stimcore.catalogue(fs, random.Random(0))
+    cat = stimcore.catalogue(fs, random.Random(0)) + [c for c in stimcore.catalogue_extra(fs) if 'preplay' in c]
     cfg = cat[seed % len(cat)]
     script = _gen_script(rng, cfg)
+    # 'preplay': the wrapped input factory had been in use before it was handed to the constructor (which resets it):
+    # the reference is built from a pristine input, "the same parameters" being what the property speaks of
+    ref_cfg = {k: v for k, v in cfg.items() if k != 'preplay'}
 
     def reference():
-        g = stimcore.mk(cfg, fs)
+        g = stimcore.mk(ref_cfg, fs)
         out = []
         for op in script:
             if op[0] == 'next':
                 out.append(np.array(g.next(_count(op[1], op[2])), dtype=float))
             elif op[0] == 'reset':
-                g = stimcore.mk(cfg, fs)       # reset() must be as good as building the generator again
+                g = stimcore.mk(ref_cfg, fs)   # reset() must be as good as building the generator again
         return out
     try:
         stimcore.mk(cfg, fs).next(5)
